@@ -2038,3 +2038,178 @@ func checkBeforePredicateOnlyBefore(c *core.Ctx) {
 			"the predicate used to skip the function whose Before was not reached also matches the After trampolines (at "+c.Pos(after)+"): when the stack runs out in an After trampoline the function – which had its Before – is skipped and gets neither After nor Abort")
 	}
 }
+
+// ---- rules added after the eighth round of seeded changes ----
+
+// checkDirentWindowBoundary (R16.12): the dirent cache refuses a position only when it lies strictly before its window: the
+// first position of the window is re-read when the entry there did not fit the guest's buffer.
+func checkDirentWindowBoundary(c *core.Ctx) {
+	p := c.Pkg("internal/sys")
+	if p == nil {
+		return
+	}
+	info := p.TypesInfo
+	n := 0
+	core.AllFuncDecls(p, func(fd *ast.FuncDecl) {
+		if core.RecvName(fd) != "DirentCache" || fd.Type.Params.NumFields() < 1 {
+			return
+		}
+		var pos types.Object
+		if len(fd.Type.Params.List) > 0 && len(fd.Type.Params.List[0].Names) > 0 {
+			pos = info.Defs[fd.Type.Params.List[0].Names[0]]
+		}
+		if pos == nil || basicKind(pos.Type()) != types.Uint64 {
+			return
+		}
+		ast.Inspect(fd.Body, func(x ast.Node) bool {
+			is, ok := x.(*ast.IfStmt)
+			if !ok {
+				return true
+			}
+			be, ok := ast.Unparen(is.Cond).(*ast.BinaryExpr)
+			if !ok {
+				return true
+			}
+			// pos compared with the start of the window (a local computed from the count read and the cached length)
+			l, lok := ast.Unparen(be.X).(*ast.Ident)
+			r, rok := ast.Unparen(be.Y).(*ast.Ident)
+			if !lok || !rok {
+				return true
+			}
+			op := be.Op
+			var other *ast.Ident
+			if info.Uses[l] == pos {
+				other = r
+			} else if info.Uses[r] == pos {
+				other = l
+				switch op {
+				case token.GTR:
+					op = token.LSS
+				case token.GEQ:
+					op = token.LEQ
+				case token.LSS:
+					op = token.GTR
+				case token.LEQ:
+					op = token.GEQ
+				}
+			} else {
+				return true
+			}
+			if !exprMentions(info, fd.Body, other, "countRead") {
+				return true
+			}
+			// the branch that refuses the position
+			refuses, returns := false, false
+			ast.Inspect(is.Body, func(y ast.Node) bool {
+				switch z := y.(type) {
+				case *ast.ReturnStmt:
+					returns = true
+					for _, res := range z.Results {
+						if nm := constNameOf(info, res); nm != "" && nm != "nil" {
+							refuses = true
+						}
+					}
+				case *ast.AssignStmt:
+					// a named errno result set to an error constant before a bare return
+					for _, r := range z.Rhs {
+						if nm := constNameOf(info, r); nm != "" && nm != "nil" && strings.HasPrefix(nm, "E") {
+							refuses = true
+						}
+					}
+				}
+				return true
+			})
+			refuses = refuses && returns
+			if !refuses || (op != token.LSS && op != token.LEQ) {
+				return true
+			}
+			n++
+			c.Check(op == token.LSS, "R16.12", "DirentCache."+fd.Name.Name+": only positions strictly before the cached window are refused", is.Pos(),
+				"`"+core.ExprStr(is.Cond)+"` is a strict comparison",
+				"`"+core.ExprStr(is.Cond)+"` also refuses the first position of the window: fd_readdir at a cookie whose first entry did not fit the buffer (reported as truncated) cannot be repeated with a larger buffer – it answers ENOENT and the entry is never delivered")
+			return true
+		})
+	})
+	if n == 0 {
+		c.Undecided("R16.12", "window test of the dirent cache", 0, "not found")
+	}
+}
+
+// checkInsertKeyAbsolute (R16.13): when the descriptor table scans its occupancy words from an offset, the key it hands out
+// is computed from the absolute word index (relative index + offset).
+func checkInsertKeyAbsolute(c *core.Ctx) {
+	n := 0
+	for _, fn := range moduleFns(c, "internal/descriptor") {
+		base := fn
+		if fn.Origin() != nil {
+			base = fn.Origin()
+		}
+		if base.Name() != "Insert" || fn.Parent() != nil {
+			continue
+		}
+		// the scanned slice: masks[offset:]
+		var offset ssa.Value
+		for _, b := range fn.Blocks {
+			for _, in := range b.Instrs {
+				if sl, ok := in.(*ssa.Slice); ok && sl.Low != nil {
+					if k, isK := sl.Low.(*ssa.Const); !isK || k.Value == nil || k.Value.String() != "0" {
+						offset = sl.Low
+					}
+				}
+			}
+		}
+		if offset == nil {
+			continue
+		}
+		for _, b := range fn.Blocks {
+			for _, in := range b.Instrs {
+				mul, ok := in.(*ssa.BinOp)
+				if !ok || mul.Op != token.MUL {
+					continue
+				}
+				var word ssa.Value
+				if k, isK := mul.Y.(*ssa.Const); isK && k.Value != nil && k.Value.String() == "64" {
+					word = mul.X
+				} else if k, isK := mul.X.(*ssa.Const); isK && k.Value != nil && k.Value.String() == "64" {
+					word = mul.Y
+				}
+				if word == nil {
+					continue
+				}
+				n++
+				abs := false
+				seen := map[ssa.Value]bool{}
+				var walk func(v ssa.Value, d int)
+				walk = func(v ssa.Value, d int) {
+					if v == nil || seen[v] || d > 6 {
+						return
+					}
+					seen[v] = true
+					switch x := v.(type) {
+					case *ssa.Convert:
+						walk(x.X, d+1)
+					case *ssa.ChangeType:
+						walk(x.X, d+1)
+					case *ssa.BinOp:
+						if x.Op == token.ADD && (x.X == offset || x.Y == offset) {
+							abs = true
+						}
+						walk(x.X, d+1)
+						walk(x.Y, d+1)
+					case *ssa.Phi:
+						for _, e := range x.Edges {
+							walk(e, d+1)
+						}
+					}
+				}
+				walk(word, 0)
+				c.Check(abs, "R16.13", fmt.Sprintf("%s: key #%d is computed from the absolute word index", core.SSAFuncName(fn), n), mul.Pos(),
+					"the word index multiplied by 64 includes the scan offset",
+					"the key is computed from the index relative to the scanned sub-slice, without the offset the scan started from: the insertion that grows the table returns a key of the first word (descriptor 0 instead of 64) and overwrites the entry that is open there")
+			}
+		}
+	}
+	if n == 0 {
+		c.Undecided("R16.13", "key computation of the descriptor table's Insert", 0, "not found")
+	}
+}
